@@ -34,7 +34,7 @@ class Calls:
                      'is_none', 'hashable', 'callraises', 'call', 'fresh_obj', 'is_int_key', 'int_key', 'ite', 'attr',
                      'has_attr', 'catches', 'exc_is', 'iff', 'dynattr', 'truthy', 'key_at', 'idx_of', 'old', 'is_fresh',
                      'seq_of', 'card', 'same_elements', 'typeof', 'callv', 'callvraises', 'isinst_dyn', 'lt', 'unhashable_any',
-                     'mhas', 'mget', 'shas', 'without_key', 're_compile_raises', 're_compile', 'as_map', 'as_seq', 'as_set', 'sat', 'slen', 'mlen', 'methraises', 'methcall', 'gen_of', 'nth_where', 'count_where', 'ghost', 'zlen', 'isfinite', 'ret_make_converter', 'ret_into_data', 'ret', 'retc', 'clsref', 'attr_named', 'ext', 'did_call', 'exited', 'cm_enter', 'clsref_dotted', 'List', 'ghost_int', 'id_of', 'fnref', 'called', 'hash_of', 'forall_bools4', 'methv', 'getattr', 'kept_seq', 'get_origin', 'get_args', 'callraises_as', 'isabstract', 'issub', 'closure_of', 'closure_free', 'deepcopy_of'}
+                     'mhas', 'mget', 'shas', 'without_key', 're_compile_raises', 're_compile', 'as_map', 'as_seq', 'as_set', 'sat', 'slen', 'mlen', 'methraises', 'methcall', 'gen_of', 'nth_where', 'count_where', 'ghost', 'zlen', 'isfinite', 'ret_make_converter', 'ret_into_data', 'ret', 'retc', 'clsref', 'attr_named', 'ext', 'did_call', 'exited', 'cm_enter', 'clsref_dotted', 'List', 'ghost_int', 'id_of', 'fnref', 'called', 'hash_of', 'forall_bools4', 'methv', 'getattr', 'kept_seq', 'get_origin', 'get_args', 'callraises_as', 'isabstract', 'issub', 'closure_of', 'closure_free', 'deepcopy_of', 'made'}
 
     # ------------------------------------------------------------------------------------
     def ev_Call(self, node, st):
@@ -458,7 +458,12 @@ class Calls:
         # restore caller environment on every resulting state
         res = []
         for r, s in out:
-            res.append((r, State(dict(saved[3]) if len(out) > 1 else saved[3], s.pc, s.notes)))
+            env_back = dict(saved[3]) if len(out) > 1 else saved[3]
+            for k2, v2 in s.env.items():
+                # ghost state written by the callee (attribute stores of objects, grown sets, call / exit logs) is global
+                if k2.startswith(('$attrs:', '$sets:', '$calls', '$cm_exits')):
+                    env_back[k2] = v2
+            res.append((r, State(env_back, s.pc, s.notes)))
         return res
 
     def apply_contract(self, con, f: VFunc, self_sv, args, kwargs, st, node, vararg=None):
@@ -503,12 +508,16 @@ class Calls:
         renv = dict(penv)
         renv['result'] = result
         for (lam, props, label) in con.ensures:
-            if any(isinstance(n, ast.Name) and n.id in ('exited', 'did_call', 'called') for n in ast.walk(lam.body)):
+            if any(isinstance(n, ast.Name) and n.id in ('exited', 'did_call', 'called', 'made') for n in ast.walk(lam.body)):
                 continue        # clauses about the callee's own ghost logs say nothing in the caller's state
             try:
                 s_ok.add(self.eval_clause(lam, renv, s_ok))
             except ClauseNotApplicable:
                 continue
+        if not self.spec_mode and not con.result_opaque:
+            # ghost call log: this call (identified by its result term, i.e. callee + arguments) was made on this path
+            log_ = s_ok.env.get('$calls')
+            s_ok.env['$calls'] = VTuple((log_.items if isinstance(log_, VTuple) else ()) + (VVal(res_t),))
         outs.append((result, s_ok))
         if not z3.is_true(ok_cond) and not self.spec_mode:
             s_ex = st.fork().add(z3.Not(ok_cond))
